@@ -250,6 +250,14 @@ def body(case):
     out.nontrivial = exists and (ref["valid"] != ref_none["valid"] or len(ref["fails"]) != len(ref_none["fails"]))
     out.label("via-spec" if spec is not None else "via-api", "reference-exists" if exists else "reference-absent",
               *[f"callable:{l.name}" for l in leaves(rule.cond) if any(isinstance(a, PathT) for a in list(l.args) + list(l.kwargs.values()))])
+    for l in leaves(rule.cond):
+        for a in list(l.args) + list(l.kwargs.values()):
+            if isinstance(a, PathT) and a.multi in ("first", "last") and len(a.parts) >= 3 and not model.is_concrete(a.parts):
+                # does a sibling branch that matches a prefix of the path dead-end before the selected node's branch?
+                sel = model.ref_select(a.parts, doc)
+                pre = model.ref_select(a.parts[:-1], doc)
+                if sel and len(pre) > len({pth[:-1] for _, pth in sel}):
+                    out.label("path-arg:first/last-past-a-dead-ending-branch")
     out.sample = f"{show(rule,450)} on {show(doc,200)}"
     if ref["valid"] != ref_direct["valid"] or ref["fails"] != ref_direct["fails"]:
         out.add("harness", "harness|model-inconsistent", "reference with resolver and with literals disagree")
